@@ -202,8 +202,12 @@ func equal(a, b Val) bool {
 		return false
 	}
 	if a.K != b.K {
+		// a byte_slice equals the string with the same bytes, in either operand order
 		if a.K == "bytes" && b.K == "string" {
 			return string(a.Y) == b.S
+		}
+		if a.K == "string" && b.K == "bytes" {
+			return a.S == string(b.Y)
 		}
 		return false
 	}
